@@ -40,6 +40,7 @@ type c18Conn struct {
 	mu     sync.Mutex
 	chunks [][]byte
 	closed bool
+	peer   net.IP // the client's address (nil: 127.0.0.1)
 }
 
 func (c *c18Conn) Read(p []byte) (int, error) {
@@ -79,8 +80,13 @@ func (c *c18Conn) Close() error {
 	}
 	return nil
 }
-func (c *c18Conn) LocalAddr() net.Addr                { return &net.TCPAddr{IP: net.IPv4(127, 0, 0, 1), Port: 8080} }
-func (c *c18Conn) RemoteAddr() net.Addr               { return &net.TCPAddr{IP: net.IPv4(127, 0, 0, 1), Port: 40000} }
+func (c *c18Conn) LocalAddr() net.Addr { return &net.TCPAddr{IP: net.IPv4(127, 0, 0, 1), Port: 8080} }
+func (c *c18Conn) RemoteAddr() net.Addr {
+	if c.peer != nil {
+		return &net.TCPAddr{IP: c.peer, Port: 40000}
+	}
+	return &net.TCPAddr{IP: net.IPv4(127, 0, 0, 1), Port: 40000}
+}
 func (c *c18Conn) SetDeadline(t time.Time) error      { return nil }
 func (c *c18Conn) SetReadDeadline(t time.Time) error  { return nil }
 func (c *c18Conn) SetWriteDeadline(t time.Time) error { return nil }
@@ -217,6 +223,7 @@ type c18HCase struct {
 	Tail   int      `json:"tail"`   // offset of the first byte behind the CONNECT header block, -1 = n/a
 	Buf    string   `json:"buf"`    // wrap: buffered bytes
 	Sizes  []int    `json:"sizes"`  // wrap: read sizes
+	Peer   string   `json:"peer"`   // the client's IP address ("" = 127.0.0.1): the gate must not depend on it
 }
 
 func TestVerifC18HTTP(t *testing.T) {
@@ -366,7 +373,7 @@ func c18Preparse(stream []byte) (parsed []map[string]any, h int) {
 func c18HTTP(t *testing.T, c c18HCase, res map[string]any) {
 	log := &c18Log{}
 	var stream []byte
-	conn := &c18Conn{log: log}
+	conn := &c18Conn{log: log, peer: net.ParseIP(c.Peer)}
 	for _, h := range c.Chunks {
 		b := vUnhex(h)
 		conn.chunks = append(conn.chunks, b)
